@@ -5,10 +5,11 @@ ID = "C15"
 HARNESS_PKG = "h_c15"
 COQ_IMPORTS = "From PV Require Import Model.Replay Oracle.C15."
 HARNESS_PROCS = 14
-HARNESS_TIMEOUT = 2400
+HARNESS_TIMEOUT = 6000
 COQ_SHARD = 8
 SEARCH_LIMIT = 150
 NONTRIVIAL_FLOOR = 5
+REGISTERED = True
 TECHNIQUE = ("Coq proof over a transition-system model of the durable tables (operations, topic associations, ack cursor) with a crash "
              "label allowed anywhere in the trace (induction over the trace) + differential correspondence with a real Node on a "
              "file-backed SQLite database that is crashed (node drop / child-process abort) and restarted")
